@@ -24,13 +24,13 @@ end M3
 
 namespace Miscut
 variable {α : Type} [Scalar α]
-/-- `UBCalculation.get_miscut`: angle in degrees and unit axis; `(0, 0)` when `U` leaves the surface normal in place -/
+/-- `UBCalculation.get_miscut` (after the normalisation repair: the cosine is divided by both lengths): angle in degrees and unit axis; `(0, 0)` when `U` leaves the surface normal in place -/
 def getMiscut (U : M3 α) (surf : V3 α) : Py (α × V3 α) :=
   let sr := M3.mulVec U surf
   let ax := V3.cross surf sr
   if lt (abs (V3.norm ax)) SMALL then .ok (zero, ⟨zero, zero, zero⟩)
   else do
-    let cosang ← PyOps.bound (V3.dot surf sr / V3.norm sr)
+    let cosang ← PyOps.bound (V3.dot surf sr / (V3.norm surf * V3.norm sr))
     let ang ← PyOps.pyAcos cosang
     pure (toDeg ang, V3.unit ax)
 end Miscut
